@@ -64,7 +64,6 @@ def _copy_isolated(c, origin):
     dq.items = [ns2, ns1] + dq.items
     namespace = c.dict("partial_args")
     disabled = c.list("disabled_tags_arg")
-    c.bounded_loop(0, 4)
     c.assume_note("the walk along parent_context is executed on concrete ancestor chains of depth 0, 1 and 2 (root / partial / block / partial-in-block); longer chains repeat the same step")
     c.call(namespace, self_val=ctx, disabled_tags=disabled, carry_loop_iterations=c.bool("carry"), block_scope=const(False))
     forbidden = {f0["locals"].addr, f0["counters"].addr, f0["tag_namespace"].addr, ns1.addr, ns2.addr, f0["scope"].addr, f0["loops"].addr} | set(outer)
